@@ -20,7 +20,7 @@ WEEK = 7 * 86400 * 10**9
 I64MAX, I64MIN = 2**63 - 1, -2**63
 FINDING_OF = {  # deviation name of the spec -> finding id
     "int_via_float64": "F-C06-1", "float_fastfloat": "F-C06-2", "ts_mult_wraps": "F-C06-3",
-    "fsuffix_unvalidated": "F-C06-4", "quote_scan": "F-C06-5", "batch_last_line_decides": "F-C06-6",
+    "fsuffix_unvalidated": "F-C06-4", "quote_scan": "F-C06-8", "batch_last_line_decides": "F-C06-6",
     "empty_tag_skipped": "F-C06-7", "tagval_equals_literal": "F-C06-7",
 }
 IMPL_DEVS = ["empty_tag_skipped", "tagval_equals_literal", "fsuffix_unvalidated", "quote_scan", "int_via_float64",
